@@ -9,6 +9,14 @@ use vharness::refimpl::range::{self as rr, RefRange, Verdict};
 fuzz_target!(|data: &[u8]| {
     let Some((&sel, rest)) = data.split_first() else { return };
     let Ok(s) = std::str::from_utf8(rest) else { return };
+    common::count(0);
+    let accepted = match sel % 4 {
+        0 => Range::parse(s).is_ok(),
+        1 => [TimestampFormat::DateTime, TimestampFormat::HttpDate, TimestampFormat::EpochSeconds].into_iter().any(|f| Timestamp::parse(f, s).is_ok()),
+        2 => CopySource::parse(s).is_ok(),
+        _ => s.parse::<s3s::dto::ContentType>().is_ok(),
+    };
+    common::count(if accepted { 1 } else { 2 });
     match sel % 4 {
         0 => {
             let got = Range::parse(s);
